@@ -46,6 +46,9 @@ func runDivider(sc scenario) result {
 	}
 
 	before := append([]uint(nil), priorities...)
+	// the divider contract: a non-nil distribution "must be updated and returned"; the caller's own map is what C14
+	// observes before and after the call (an empty non-nil map included)
+	passed := dist
 
 	switch which {
 	case 2:
@@ -64,6 +67,17 @@ func runDivider(sc scenario) result {
 
 	if dist == nil {
 		return okInts(1)
+	}
+
+	if passed != nil {
+		if len(passed) != len(dist) {
+			return result{verdict: "passed-distribution-not-updated"}
+		}
+		for k, v := range dist {
+			if got, ok := passed[k]; !ok || got != v {
+				return result{verdict: "passed-distribution-not-updated"}
+			}
+		}
 	}
 
 	res := okInts(0)
